@@ -394,6 +394,15 @@ def gen_C15(seed, tier):
         out.append("join %s %s %s" % (G.frs(a), G.frs(X), G.frs(b)))
         out.append("joinsep %s %s %s" % (G.frs(a), G.frs(X), G.frs(b)))
         g.stats["join:%s" % ("massless-first" if k % 5 == 0 else "generic")] += 1
+    # a massless body that still carries rotational inertia (a reflected rotor inertia): Join adds it,
+    # Separate has to remove it again
+    for k in range(nmodels(tier, 12, 60)):
+        a = g.body()
+        rotor = [F(0)] + g.vec(-1, 1) + g.inertia() + [0]
+        X = g.frame(0.1)
+        out.append("join %s %s %s" % (G.frs(a), G.frs(X), G.frs(rotor)))
+        out.append("joinsep %s %s %s" % (G.frs(a), G.frs(X), G.frs(rotor)))
+        g.stats["join:massless-with-inertia"] += 1
     # degenerate: joining a massless body does nothing; both massless is an error
     z = g.body(massless=True); z[-1] = 0
     out.append("join %s %s %s" % (G.frs(g.body()), G.frs(g.frame()), G.frs(z)))
@@ -401,6 +410,12 @@ def gen_C15(seed, tier):
     # (2) setters vs rebuilding
     for i in range(n):
         mb = G.random_model(g, max_joints=4, fixed_prob=0.6)
+        rotor_id = None
+        if i % 4 == 0 and mb.movable_real:
+            # a fixed body with zero mass and non-zero inertia, on a parent that has mass (joining two
+            # massless bodies is rejected by the library)
+            rotor_id = mb.add_fixed(g.r.choice(mb.movable_real), "-", body=[F(0)] + g.vec(-1, 1) + g.inertia() + [0])
+            g.stats["set:model-with-massless-inertial-fixed-body"] += 1
         # targets: movable bodies without attachments, fixed bodies (any parent)
         attached = set()
         for fid in mb.fixed_ids:
@@ -417,7 +432,9 @@ def gen_C15(seed, tier):
             (p in fixed_parents) for p in [b])]
         # fixed bodies that are parents of other fixed bodies or of the base are still valid targets
         targets = []
-        if cand_fixed:
+        if rotor_id is not None:
+            targets.append(rotor_id)
+        elif cand_fixed:
             targets.append(g.r.choice(cand_fixed))
         if cand_mov and (not targets or g.r.random() < 0.6):
             # only bodies whose line index is known
@@ -487,7 +504,21 @@ def gen_C16(seed, tier):
         q = F(math.atan2(float(s), float(c)))
         return "%s %s %s" % (G.fr(q), G.fr(c), G.fr(s))
 
-    def quat(half_turn=False):
+    def quat(half_turn=False, big_angle=False):
+        if big_angle:
+            # rotation by more than 120 degrees about an axis dominated by one coordinate: the branches
+            # of fromMatrix that are taken when the trace is not positive
+            ax = [F(g.r.randint(-2, 2), 10), F(g.r.randint(-2, 2), 10), F(1)]
+            g.r.shuffle(ax)
+            w = F(g.r.randint(1, 4), 10) * g.r.choice([1, -1])
+            v = ax + [w]
+            # rational unit quaternion close to v: stereographic projection through the largest entry
+            k = max(range(4), key=lambda j: abs(v[j]))
+            u = [v[j] / (abs(v[k]) + 1) for j in range(4) if j != k]
+            n2 = sum(x * x for x in u)
+            qq = [2 * x / (1 + n2) for x in u]
+            qq.insert(k, (1 - n2) / (1 + n2) * (1 if v[k] > 0 else -1))
+            return G.frs(qq)
         if half_turn:
             # unit quaternion with w = 0 (rotation by pi): the trace of its matrix is -1
             u = g.unit_vec()
@@ -510,7 +541,7 @@ def gen_C16(seed, tier):
             "parallelAxis %s %s %s" % (G.frs(g.inertia()), G.fr(g.pos()), G.frs(g.vec(-1, 1))),
             "qmul %s %s" % (quat(), quat()), "qconj %s" % quat(), "qtoMatrix %s" % quat(),
             "qrotate %s %s" % (quat(), G.frs(g.vec())), "qomegaToQDot %s %s" % (quat(), G.frs(g.vec())),
-            "qroundtrip %s" % quat(), "qroundtrip %s" % quat(half_turn=True),
+            "qroundtrip %s" % quat(), "qroundtrip %s" % quat(half_turn=True), "qroundtrip %s" % quat(big_angle=True),
         ]
         # Gauss elimination with pivoting: random well-conditioned systems
         k = g.r.randint(2, 5)
@@ -669,6 +700,14 @@ def calls_C11(g, mb, cb):
         c.append("call IDCR 1")
         if nu == nc:
             c.append("call IDC 1")
+    if not cb.has_loop:
+        # the operators at a state other than the one at which the actuation test last ran (contact
+        # sets have no position-level manifold, so every configuration is admissible): nothing cached
+        # by the test may enter the result
+        c += mb.state_lines()
+        c.append("call IDCR 1")
+        if nu == nc:
+            c.append("call IDC 1")
     return c
 
 
@@ -718,7 +757,8 @@ def gen_C17(seed, tier):
         kinds = [g.r.choice(["p", "xy", "z"]) for _ in bodies]
         cons = " ".join("%s %d %s %s %s %s" % (k, b, G.frs(p), G.frs(t), G.frs(R), G.fr(g.r.choice([F(1), F(1, 2), F(2)])))
                         for k, b, p, t, R in zip(kinds, bodies, pts, tg, Rs))
-        body.append("call IK2 %s %d %s %s %d %s" % ("1/1000000000", 120, "1/100000000000000", ctol, len(bodies), cons))
+        # every other case: the same problem on a constraint set that was used before and cleared
+        body.append("call %s %s %d %s %s %d %s" % ("IK2c" if i % 2 else "IK2", "1/1000000000", 120, "1/100000000000000", ctol, len(bodies), cons))
         if reachable:
             kinds2 = [g.r.choice(["f", "o", "p"]) for _ in bodies]
             cons2 = " ".join("%s %d %s %s %s 1" % (k, b, G.frs(p), G.frs(t), G.frs(R))
